@@ -85,7 +85,7 @@ macro_rules! field_checks {
         // ---------------------------------------------------------------- unary methods
         let reals = [-2.5, -0.625, 0.3125, 0.75, 1.25, 2.0];
         let xs = operands::<F>(l, &reals, 0);
-        let ys = operands::<F>(l, &[-1.25, 0.5, 1.5], l.nslots());
+        let ys = operands::<F>(l, &[-1.25, 0.5, 1.5, 0.0, -0.0], l.nslots());
         type Un = (&'static str, fn(f64) -> bool, fn(D) -> D, fn(&D) -> D, fn(F) -> F, bool);
         let all = |_: f64| true;
         let pos = |x: f64| x > 0.0;
@@ -220,7 +220,7 @@ macro_rules! field_checks {
                     ("unscale", |_, b| b != 0.0, |a, b| ComplexField::unscale(a, b), |a, b| a.clone() / b.clone(), |a, b| ComplexField::unscale(a, b), 8.0),
                     ("hypot", |_, _| true, |a, b| ComplexField::hypot(a, b), |a, b| DualNum::sqrt(&(DualNum::powi(a, 2) + DualNum::powi(b, 2))), |a, b| ComplexField::hypot(a, b), 16.0),
                     ("log", |a, b| a > 0.0 && b > 0.0 && b != 1.0, |a, b| ComplexField::log(a, b), |a, b| DualNum::ln(a) / DualNum::ln(b), |a, b| ComplexField::log(a, b), 64.0),
-                    ("powf", |a, _| a > 0.0, |a, b| ComplexField::powf(a, b), |a, b| DualNum::powd(a, b.clone()), |a, b| ComplexField::powf(a, b), 64.0),
+                    ("powf", |a, _| a > 0.0 && a != 1.0, |a, b| ComplexField::powf(a, b), |a, b| DualNum::powd(a, b.clone()), |a, b| ComplexField::powf(a, b), 64.0),
                     ("powc", |a, _| a > 0.0, |a, b| ComplexField::powc(a, b), |a, b| DualNum::powd(a, b.clone()), |a, b| ComplexField::powc(a, b), 64.0),
                     ("atan2", |_, _| true, |a, b| RealField::atan2(a, b), |a, b| DualNum::atan2(a, b.clone()), |a, b| RealField::atan2(a, b), 0.0),
                     ("mul_add", |_, _| true, |a, b| ComplexField::mul_add(a.clone(), b, a), |a, b| DualNum::mul_add(a, b.clone(), a.clone()), |a, b| ComplexField::mul_add(a, b, a), 8.0),
